@@ -1,5 +1,223 @@
 package main
 
+import (
+	"encoding/json"
+	"fmt"
+	"os"
+	"os/exec"
+	"path/filepath"
+	"sort"
+	"strconv"
+	"strings"
+	"sync"
+)
+
+// selftest determinism [--seeds N] [--props C01,C05,...]
+//
+//	every selected property: N seeds x {GOMAXPROCS 1,4,16} x {plain, race} x 2 repetitions; per seed
+//	the verdict, the canonical transcript hash, the context-switch hash and the multiset of fired
+//	events must be identical in all runs.
+//
+// selftest mutants [--only name]
+//
+//	every patch under /verif/mutants is applied to /repo (git apply), the owning check must report a
+//	VIOLATION within the quick budget, and the patch is reverted (git checkout) whatever happens.
 func selftest(args []string) {
-	die(2, "selftest: not built yet")
+	if len(args) == 0 {
+		die(2, "selftest determinism|mutants")
+	}
+	switch args[0] {
+	case "determinism":
+		selftestDeterminism(args[1:])
+	case "mutants":
+		selftestMutants(args[1:])
+	default:
+		die(2, "unknown selftest %s", args[0])
+	}
+}
+
+var gomaxprocsOverride string
+
+func firedKey(ds []directive) string {
+	var ks []string
+	for _, d := range ds {
+		b, _ := json.Marshal(d)
+		ks = append(ks, string(b))
+	}
+	sort.Strings(ks)
+	return strings.Join(ks, ";")
+}
+
+func selftestDeterminism(args []string) {
+	nSeeds := 40
+	var sel []string
+	for i := 0; i < len(args); i++ {
+		switch args[i] {
+		case "--seeds":
+			i++
+			nSeeds, _ = strconv.Atoi(args[i])
+		case "--props":
+			i++
+			sel = strings.Split(args[i], ",")
+		}
+	}
+	if sel == nil {
+		for p := range props {
+			sel = append(sel, p)
+		}
+		sort.Strings(sel)
+	}
+	scratch, err := os.MkdirTemp(outDir, "selftest-")
+	if err != nil {
+		os.MkdirAll(outDir, 0755)
+		scratch, _ = os.MkdirTemp(outDir, "selftest-")
+	}
+	defer os.RemoveAll(scratch)
+	bins := map[string]string{"plain": filepath.Join(scratch, "simnode"), "race": filepath.Join(scratch, "simnode-race")}
+	if err := build(false, bins["plain"]); err != nil {
+		die(2, "build: %v", err)
+	}
+	if err := build(true, bins["race"]); err != nil {
+		die(2, "race build: %v", err)
+	}
+	type key struct {
+		prop    string
+		seed    uint64
+		variant string // plans and event keys depend on the binary (symbol tables, code layout): compare within a build
+	}
+	type obs struct {
+		verdict, trans, fired, cfg string
+		sw                         uint64
+	}
+	var mu sync.Mutex
+	seen := map[key][]obs{}
+	var wg sync.WaitGroup
+	sem := make(chan struct{}, 16)
+	runs := 0
+	for _, prop := range sel {
+		cfg, ok := props[prop]
+		if !ok {
+			die(2, "unknown property %s", prop)
+		}
+		n := nSeeds
+		if cfg.PerProc && n > 12 {
+			n = 12
+		}
+		for _, variant := range []string{"plain", "race"} {
+			for _, gmp := range []string{"1", "4", "16"} {
+				for rep := 0; rep < 2; rep++ {
+					wg.Add(1)
+					runs++
+					go func(prop, variant, gmp string, rep int, perProc bool) {
+						defer wg.Done()
+						sem <- struct{}{}
+						defer func() { <-sem }()
+						r := &runner{prop: prop, tier: "quick", scratch: scratch, bins: bins}
+						step := n
+						if perProc {
+							step = 1
+						}
+						for s := 0; s < n; s += step {
+							a := []string{"batch", "-prop", prop, "-seed0", strconv.Itoa(777000 + s), "-n", strconv.Itoa(step), "-tier", "quick", "-known", "S1"}
+							res, _, _, _ := r.runChildEnv(a, variant, []string{"GOMAXPROCS=" + gmp})
+							mu.Lock()
+							for _, x := range res {
+								seen[key{prop, x.Seed, variant}] = append(seen[key{prop, x.Seed, variant}], obs{x.Verdict, x.Trans, firedKey(x.Fired), variant + "/P" + gmp + "/r" + strconv.Itoa(rep), x.Stats.SwitchHash})
+							}
+							mu.Unlock()
+						}
+					}(prop, variant, gmp, rep, cfg.PerProc)
+				}
+			}
+		}
+	}
+	wg.Wait()
+	bad := 0
+	cells := 0
+	for k, os_ := range seen {
+		cells += len(os_)
+		for _, o := range os_[1:] {
+			if o.verdict != os_[0].verdict || o.trans != os_[0].trans || o.sw != os_[0].sw || o.fired != os_[0].fired {
+				bad++
+				if bad <= 10 {
+					fmt.Printf("NONDETERMINISTIC %s seed %d: %s {%s %s %x} vs %s {%s %s %x} firedEqual=%v\n", k.prop, k.seed, os_[0].cfg, os_[0].verdict, os_[0].trans, os_[0].sw, o.cfg, o.verdict, o.trans, o.sw, o.fired == os_[0].fired)
+				}
+				break
+			}
+		}
+	}
+	fmt.Printf("selftest determinism: %d properties, %d (property,seed) cells, %d observations in %d child batches, %d divergent cells\n", len(sel), len(seen), cells, runs, bad)
+	// guard: a new map iteration in goom's reset paths would need a look
+	out, _ := exec.Command("sh", "-c", `grep -rn "range .*mockers\|range patches\|range m\.mCache\|range m\.umCache" /repo --include=*.go | grep -v _test.go`).Output()
+	fmt.Printf("map iterations in goom's cancel/reset/String paths (order neutralised by identity-keyed decisions, see DESIGN.md §5):\n%s", out)
+	if bad > 0 {
+		os.Exit(1)
+	}
+}
+
+func selftestMutants(args []string) {
+	only := ""
+	for i := 0; i < len(args); i++ {
+		if args[i] == "--only" {
+			i++
+			only = args[i]
+		}
+	}
+	dir := filepath.Join(verifDir, "mutants")
+	ents, _ := os.ReadDir(dir)
+	self, _ := os.Executable()
+	fail := 0
+	total := 0
+	for _, e := range ents {
+		if !strings.HasSuffix(e.Name(), ".diff") || (only != "" && !strings.Contains(e.Name(), only)) {
+			continue
+		}
+		// file name: <PROP>[+PROP]-<name>.diff ; prefix "neg-" marks a negative control (no check may fire)
+		name := strings.TrimSuffix(e.Name(), ".diff")
+		neg := strings.HasPrefix(name, "neg-")
+		propsPart := strings.SplitN(strings.TrimPrefix(name, "neg-"), "-", 2)[0]
+		total++
+		if out, err := exec.Command("git", "-C", "/repo", "apply", "--check", filepath.Join(dir, e.Name())).CombinedOutput(); err != nil {
+			fmt.Printf("MUTANT %-40s DOES NOT APPLY: %s\n", name, strings.TrimSpace(string(out)))
+			fail++
+			continue
+		}
+		exec.Command("git", "-C", "/repo", "apply", filepath.Join(dir, e.Name())).Run()
+		caught := ""
+		alarms := ""
+		for _, p := range strings.Split(propsPart, "+") {
+			cmd := exec.Command(self, p, "--tier", "quick")
+			cmd.Env = append(os.Environ(), "VERIF_SEED=1")
+			out, _ := cmd.CombinedOutput()
+			code := cmd.ProcessState.ExitCode()
+			if strings.Contains(string(out), "VIOLATION property="+p) && code == 1 {
+				caught += p + " "
+				for _, l := range strings.Split(string(out), "\n") {
+					if strings.HasPrefix(l, "violation class") {
+						alarms += "    " + l + "\n"
+						break
+					}
+				}
+			} else if code == 2 {
+				alarms += fmt.Sprintf("    %s: exit 2 (build/harness)\n", p)
+			}
+		}
+		exec.Command("git", "-C", "/repo", "checkout", "--", ".").Run()
+		switch {
+		case neg && caught == "":
+			fmt.Printf("CONTROL %-40s silent (as required)\n", name)
+		case neg:
+			fmt.Printf("CONTROL %-40s FALSE ALARM by %s\n%s", name, caught, alarms)
+			fail++
+		case caught != "":
+			fmt.Printf("MUTANT  %-40s caught by %s\n%s", name, caught, alarms)
+		default:
+			fmt.Printf("MUTANT  %-40s MISSED\n%s", name, alarms)
+			fail++
+		}
+	}
+	fmt.Printf("selftest mutants: %d patches, %d problems\n", total, fail)
+	if fail > 0 {
+		os.Exit(1)
+	}
 }
